@@ -86,7 +86,11 @@ def strategy(tier):
              "outside": draw(st.integers(0, 14)) == 0,
              "log": draw(st.booleans()),
              "seed": draw(st.integers(0, 2 ** 32 - 1)),
-             "n": draw(st.sampled_from([1, 1, 2, 3, 5, 8, 13, 20]))}
+             "n": draw(st.sampled_from([1, 1, 2, 3, 5, 8, 13, 20])),
+             "style": draw(st.sampled_from(["mixed", "mixed", "keyword"]))}
+        if kind in ("d", "p", "q") and fam != "nbinom" and draw(st.integers(0, 2)) == 0:
+            # the same argument asked again for other parameter values (and back): no answer may depend on an earlier call
+            c["again"] = [draw(_params(fam)) for _ in range(draw(st.integers(1, 2)))]
         return c
     return case()
 
@@ -188,12 +192,17 @@ DEFAULTS = {"exp": {"rate": 1.0}, "norm": {"mean": 0, "sd": 1}, "unif": {"min": 
             "pois": {"mu": 1.0}}
 
 
+_STYLE = ["mixed"]          # how parameters are handed over in this case: the historical mix, or all by keyword
+
+
 def _call(fn, fam, x, P, use_defaults, **kw):
     """Call pygom.utilR.<fn> with keyword parameters (or with none, to exercise the defaults)."""
     import pygom.utilR as R
     f = getattr(R, fn)
     if use_defaults:
         return f(x, **kw)
+    if _STYLE[0] == "keyword" and fam != "nbinom":
+        return f(x, **P, **kw)                      # every parameter by keyword
     if fam == "gamma":
         return f(x, P["shape"], rate=P["rate"], **kw)
     if fam == "chisq":
@@ -218,6 +227,22 @@ def _close(got, ref, rtol, what, key, case):
 
 
 def oracle(case, rec):
+    _STYLE[0] = case.get("style", "mixed")
+    x_first = _oracle_one(case, rec)
+    if case.get("again"):
+        rec.label("call-sequence:same-argument-other-parameters")
+        for P2 in list(case["again"]) + [case["params"]]:
+            if case["kind"] in "dp":
+                # the fixed argument must not sit in an extreme tail of the other distribution (reference values would be
+                # denormal or round to 0/1, where a relative comparison of log values means nothing)
+                c_at = float(_ref_cdf(case["family"], P2, x_first))
+                if not (1e-6 < c_at < 1 - 1e-6):
+                    rec.label("call-sequence:follow-up-skipped-extreme-tail")
+                    continue
+            _oracle_one(dict(case, params=P2, use_defaults=False, again=None, x_fixed=x_first, outside=False), rec, count=False)
+
+
+def _oracle_one(case, rec, count=True):
     fam, kind, P = case["family"], case["kind"], dict(case["params"])
     use_def = bool(case["use_defaults"]) and fam in DEFAULTS
     if use_def:
@@ -236,10 +261,13 @@ def oracle(case, rec):
         elif math.isfinite(hi):
             x, inside = hi + 1.5, False
     x = float(x)
+    if case.get("x_fixed") is not None and kind in "dp":
+        x, inside = float(case["x_fixed"]), True
     if not math.isfinite(x):
         raise Inconclusive("argument not finite")
     log = bool(case["log"])
-    rec.label("family:" + fam, "kind:" + kind, "log" if (log and kind in "dp") else "plain")
+    if count:
+        rec.label("family:" + fam, "kind:" + kind, "log" if (log and kind in "dp") else "plain")
     nontrivial = (not use_def) and inside
     fnbase = fam
     K = "C19/%s%s" % ("%s", fnbase)
@@ -389,8 +417,9 @@ def oracle(case, rec):
                     fam, P, pval, fam), case)
         else:
             raise Inconclusive("no seeded generator")
-    if nontrivial:
+    if nontrivial and count:
         rec.mark_nontrivial(case, dict(case, x=x))
+    return x
 
 
 def _selftest_reference():
